@@ -61,19 +61,21 @@ pub uninterp spec fn spec_sign(key: CoseKey, msg: Seq<u8>) -> Seq<u8>;
 impl AuthenticatorData {
     #[verifier::external_body]
     pub fn new(rp_id: &str, counter: Option<u32>) -> (r: Self)
-        ensures r.rp_id@ == rp_id@, r.counter == counter, !r.has_attested, r.ext.is_none(), r.flags.bits == 0x18
+        ensures r.rp_id@ == rp_id@, r.counter == counter, !r.has_attested, r.ext.is_none(), forall|i: u8| 0 <= i < 8 ==> #[trigger] r.flags.has(i) == (i == 3 || i == 4)
     { unimplemented!() }
     #[verifier::external_body]
     pub fn set_flags(self, flags: Flags) -> (r: Self)
-        ensures r.rp_id == self.rp_id, r.counter == self.counter, r.has_attested == self.has_attested, r.ext == self.ext, r.flags.bits == self.flags.bits | flags.bits
+        ensures r.rp_id == self.rp_id, r.counter == self.counter, r.has_attested == self.has_attested, r.ext == self.ext, forall|i: u8| 0 <= i < 8 ==> #[trigger] r.flags.has(i) == (self.flags.has(i) || flags.has(i))
     { unimplemented!() }
     #[verifier::external_body]
     pub fn set_assertion_extensions(self, e: Option<SignedExt>) -> (r: Result<Self, Ctap2Error>)
-        ensures r matches Ok(a) ==> a.rp_id == self.rp_id && a.counter == self.counter && a.has_attested == self.has_attested && (a.flags.bits == self.flags.bits || a.flags.bits == self.flags.bits | 0x80)
+        ensures r matches Ok(a) ==> a.rp_id == self.rp_id && a.counter == self.counter && a.has_attested == self.has_attested && (forall|i: u8| 0 <= i < 7 ==> #[trigger] a.flags.has(i) == self.flags.has(i))
     { unimplemented!() }
     #[verifier::external_body]
     pub fn to_vec(&self) -> (r: Vec<u8>) ensures r@ == spec_ad_bytes(*self) { unimplemented!() }
 }
+#[verifier::external_body]
+pub fn vx_vec_extend_bytes(v: &mut Vec<u8>, b: Bytes) ensures final(v)@ == old(v)@ + b@ { unimplemented!() }
 #[verifier::external_body]
 pub fn sign_with_cose_key(key: &CoseKey, msg: &Vec<u8>) -> (r: Result<Bytes, Ctap2Error>)
     ensures r matches Ok(s) ==> s@ == spec_sign(*key, msg@)
@@ -110,13 +112,20 @@ impl From<Passkey> for PublicKeyCredentialDescriptor { fn from(value: Passkey) -
 pub open spec fn matches_ids(p: Passkey, ids: Option<Seq<PublicKeyCredentialDescriptor>>) -> bool {
     ids matches Some(l) ==> exists|i: int| 0 <= i < l.len() && l[i].id@ == p.credential_id@
 }
+pub open spec fn matching(view: Seq<Passkey>, ids: Option<Seq<PublicKeyCredentialDescriptor>>, rp: Seq<char>) -> Seq<Passkey> {
+    view.filter(|p: Passkey| p.rp_id@ == rp && matches_ids(p, ids))
+}
 pub open spec fn opt_view(ids: Option<&[PublicKeyCredentialDescriptor]>) -> Option<Seq<PublicKeyCredentialDescriptor>> {
     match ids { Some(s) => Some(s@), None => None }
 }
 pub trait CredentialStore: Sized {
     spec fn view(&self) -> Seq<Passkey>;
+    // deterministic oracle for the lookup result (a store may also fail)
+    spec fn spec_find(&self, ids: Option<Seq<PublicKeyCredentialDescriptor>>, rp: Seq<char>) -> Result<Seq<Passkey>, StatusCode>;
     fn find_credentials(&self, ids: Option<&[PublicKeyCredentialDescriptor]>, rp_id: &str) -> (r: Result<Vec<Passkey>, StatusCode>)
-        ensures r matches Ok(v) ==> (forall|i: int| 0 <= i < v@.len() ==> self.view().contains(#[trigger] v@[i]) && v@[i].rp_id@ == rp_id@ && matches_ids(v@[i], opt_view(ids)));
+        ensures
+            match r { Ok(v) => self.spec_find(opt_view(ids), rp_id@) == Ok::<Seq<Passkey>, StatusCode>(v@), Err(e) => self.spec_find(opt_view(ids), rp_id@) == Err::<Seq<Passkey>, StatusCode>(e) },
+            r matches Ok(v) ==> (forall|i: int| 0 <= i < v@.len() ==> self.view().contains(#[trigger] v@[i]) && v@[i].rp_id@ == rp_id@ && matches_ids(v@[i], opt_view(ids)));
     fn update_credential(&mut self, cred: Passkey) -> (r: Result<(), StatusCode>)
         ensures r is Err ==> final(self).view() == old(self).view(),
                 r is Ok ==> final(self).view().len() == old(self).view().len() && forall|i: int| 0 <= i < old(self).view().len() ==> final(self).view()[i] == (if old(self).view()[i].credential_id@ == cred.credential_id@ { cred } else { old(self).view()[i] });
@@ -135,6 +144,18 @@ pub open spec fn consent_ok<U: UserValidationMethod>(u: &U, o: Options, cred: Op
         &&& f.has(0) == c.presence &&& f.has(2) == c.verification
         &&& forall|i: u8| 0 <= i < 8 && i != 0 && i != 2 ==> !#[trigger] f.has(i) }, Err(_) => false }
 }
+pub open spec fn consent_err<U: UserValidationMethod>(u: &U, o: Options, cred: Option<Passkey>) -> Option<Ctap2Error> {
+    if o.uv && u.spec_enabled() != Some(true) { Some(Ctap2Error::UnsupportedOption) }
+    else { match u.spec_report(cred, o.up, o.uv) {
+        Err(e) => Some(e),
+        Ok(c) => if (o.up && !c.presence) || (o.uv && !c.verification) { Some(Ctap2Error::OperationDenied) } else { None } } }
+}
+pub open spec fn allow_ids(input: Request) -> Option<Seq<PublicKeyCredentialDescriptor>> {
+    match input.allow_list { Some(l) => if l@.len() > 0 { Some(l@) } else { None }, None => None }
+}
+pub open spec fn shown_cred<S: CredentialStore>(st: S, input: Request) -> Option<Passkey> {
+    match st.spec_find(allow_ids(input), input.rp_id@) { Ok(v) => if v.len() > 0 { Some(v[0]) } else { None }, Err(_) => None }
+}
 pub open spec fn opt_deref(o: Option<&Passkey>) -> Option<Passkey> { match o { Some(p) => Some(*p), None => None } }
 
 impl<S: CredentialStore, U: UserValidationMethod> Authenticator<S, U> {
@@ -143,6 +164,8 @@ impl<S: CredentialStore, U: UserValidationMethod> Authenticator<S, U> {
     #[verifier::external_body]
     fn check_user(&self, options: &Options, credential: Option<&Passkey>) -> (r: Result<Flags, Ctap2Error>)
         ensures r matches Ok(f) ==> consent_ok(&self.user_validation, *options, opt_deref(credential), f),
+            r matches Err(e) ==> consent_err(&self.user_validation, *options, opt_deref(credential)) == Some(e),
+            r is Ok ==> consent_err(&self.user_validation, *options, opt_deref(credential)).is_none(),
     { unimplemented!() }
     #[verifier::external_body]
     fn get_extensions(&self, passkey: &Passkey, request: Option<ExtIn>, uv: bool) -> Result<GetExtensionOutputs, StatusCode> { unimplemented!() }
@@ -156,16 +179,31 @@ where
     pub fn get_assertion(&mut self, input: Request) -> (r: Result<Response, StatusCode>)
         ensures
             // C05: bound to RP, in allow list
-            r matches Ok(resp) ==> exists|sel: Passkey| #![auto] {
-                 &&& old(self).store.view().contains(sel) &&& sel.rp_id@ == input.rp_id@
+            r matches Ok(resp) ==> (old(self).store.spec_find(allow_ids(input), input.rp_id@) matches Ok(found) && found.len() > 0 && ({
+                 let sel = found[0];   // "the first credential the store lists" for (ids, RP), ids absent when the allow list is absent or empty
+                 // C05
+                 &&& old(self).store.view().contains(sel) &&& sel.rp_id@ == input.rp_id@ &&& matches_ids(sel, allow_ids(input))
                  &&& (resp.credential matches Some(d) && d.id@ == sel.credential_id@)
-                 &&& (input.allow_list matches Some(l) ==> (l@.len() > 0 ==> matches_ids(sel, Some(l@))))
                  // C08
                  &&& (match sel.counter { Some(c) => c < u32::MAX ==> resp.auth_data.counter == Some((c + 1) as u32), None => resp.auth_data.counter.is_none() && final(self).store.view() == old(self).store.view() })
                  // C11
-                 &&& (resp.user is Some <==> sel.user_handle is Some) },
+                 &&& (resp.user is Some <==> sel.user_handle is Some)
+                 // C04: the credential shown for consent is the one that signs, consent was given, flags truthful
+                 &&& (exists|f: Flags| consent_ok(&old(self).user_validation, input.options, Some(sel), f)
+                        && resp.auth_data.flags.has(0) == f.has(0) && resp.auth_data.flags.has(2) == f.has(2))
+                 // C03: signature over authenticator data || client data hash under the selected credential's key
+                 &&& resp.signature@ == spec_sign(sel.key, spec_ad_bytes(resp.auth_data) + input.client_data_hash@)
+                 &&& resp.auth_data.rp_id@ == input.rp_id@ &&& !resp.auth_data.has_attested })),
             // C07
             r is Err ==> final(self).store.view().len() == old(self).store.view().len(),
+            // C04: without consent the result is the consent error, whatever the lookup found
+            (input.pin_auth is None && !input.options.rk) ==> ({
+                let shown = shown_cred(old(self).store, input);
+                consent_err(&old(self).user_validation, input.options, shown) matches Some(e) ==> r == Err::<Response, StatusCode>(StatusCode::Ctap2(e)) }),
+            // C03: consent given but nothing eligible => NoCredentials
+            (input.pin_auth is None && !input.options.rk && shown_cred(old(self).store, input) is None
+                && consent_err(&old(self).user_validation, input.options, None) is None
+                && old(self).store.spec_find(allow_ids(input), input.rp_id@) is Ok) ==> r == Err::<Response, StatusCode>(StatusCode::Ctap2(Ctap2Error::NoCredentials)),
     {
         let maybe_credential = self
             .store()
@@ -175,7 +213,7 @@ where
                     .filter(|inner: &&[PublicKeyCredentialDescriptor]| -> (b: bool) ensures b == (inner@.len() != 0) { !inner.is_empty() }),
                 &input.rp_id,
             )
-            .and_then(|c: Vec<Passkey>| -> (o: Result<Passkey, StatusCode>) ensures (c@.len() > 0 ==> o == Ok::<Passkey, StatusCode>(c@[0])) && (c@.len() == 0 ==> o is Err) { c.into_iter().next().ok_or(Ctap2Error::NoCredentials.into()) });
+            .and_then(|c: Vec<Passkey>| -> (o: Result<Passkey, StatusCode>) ensures (c@.len() > 0 ==> o == Ok::<Passkey, StatusCode>(c@[0])) && (c@.len() == 0 ==> o == Err::<Passkey, StatusCode>(StatusCode::Ctap2(Ctap2Error::NoCredentials))) { c.into_iter().next().ok_or(Ctap2Error::NoCredentials.into()) });
 
         if input.pin_auth.is_some() {
             return Err(Ctap2Error::PinAuthInvalid.into());
@@ -183,9 +221,9 @@ where
         if input.options.rk {
             return Err(Ctap2Error::UnsupportedOption.into());
         }
-        let flags = self
+        let flags = match self
             .check_user(&input.options, maybe_credential.as_ref().ok())
-            ?;
+            { Ok(v) => v, Err(e) => return Err(e.into()) };
 
         let mut credential = maybe_credential?
             ;
@@ -204,6 +242,7 @@ where
             .set_assertion_extensions(extensions.signed)?;
 
         let mut signature_target = auth_data.to_vec();
+        vx_vec_extend_bytes(&mut signature_target, input.client_data_hash);
         let signature_bytes = sign_with_cose_key(&credential.key, &signature_target)?;
 
         let user_handle = credential.user_handle.clone();
